@@ -350,28 +350,10 @@ def gen_case(rng, additive_only=False):
             body.append(["fail"])
         prog = ["block", body]
     elif shape < 0.8:
-        prog = gen_op(not additive_only)
-        while prog[1] == "expand":
-            # a lone expandDataId is a read: the model gives it no boundary at all, the implementation several SELECTs
-            # (a BaseException there is a different outcome code); it is exercised inside blocks instead
-            prog = gen_op(not additive_only)
+        prog = gen_op(not additive_only)     # a lone expandDataId included (compared since the cache load is a boundary of the model)
     else:
         prog = ["try", ["block", [gen_prog(1, removal_ok) for _ in range(rng.choice([2, 3]))] + [["fail"]]]]
-    return {"pre": pre, "prog": _no_caught_expand(prog)}
-
-
-def _no_caught_expand(p):
-    """`try: expandDataId(...)` on a Butler whose dimension record cache is still empty: a natural fault at one of the cache-loading
-    SELECTs is caught by the program, which then completes -- a fault position the model does not have (Expand has no boundary:
-    design.d/C07.md, limits; confirmed by replaying block[try expand 1; put 0 1]).  Like the lone top-level expand, the caught
-    expand is therefore not generated: the `try` is dropped (no random number is consumed, every other program of every seed stays
-    what it was); expand stays exercised uncaught inside blocks and inside caught BLOCKS."""
-    if p[0] == "try":
-        q = _no_caught_expand(p[1])
-        return q if (q[0] == "op" and q[1] == "expand") else ["try", q]
-    if p[0] == "block":
-        return ["block", [_no_caught_expand(q) for q in p[1]]]
-    return p
+    return {"pre": pre, "prog": prog}
 
 
 # =================================================================================================
@@ -662,6 +644,15 @@ def run(ctx: Ctx):
     if ctx.replay:
         j = ctx.replay_obj
         cases, origins, ncorpus = [{"pre": j["pre"], "prog": j["prog"]}], ["replay"], 1
+    elif os.environ.get("VERIF_C07_EXPAND_SWEEP"):
+        # cheap sweep: no corpus, only those of the first N generated programs of this seed that contain expandDataId
+        # (caught or not) -- the operation whose cache-loading SELECTs are boundaries of the model since wave 5
+        cases, origins, ncorpus = [], [], 0
+        for k in range(int(os.environ["VERIF_C07_EXPAND_SWEEP"])):
+            c = gen_case(ctx.rng, additive_only=(k % 4 == 0))
+            if "expand" in ops_in(c["prog"]):
+                cases.append(c)
+                origins.append(f"seed{ctx.seed}/{k}")
     else:
         n = 8 if ctx.quick else 100      # 8 (was 12): the corpus grew from 10 to 15 programs (removals, transfer, import, seed-4 case); wall time unchanged
         for k in range(n):
